@@ -32,7 +32,7 @@ claimed["C13"] = dict(
 claimed["C03"] = dict(
    text="Static path analysis decides the rejection plumbing that soundness needs and that positive-only tests cannot see: on every path, every error raised inside "
         "the verification spine reaches the caller as a non-nil error; a root is counted as matched only under an equality between a stored root and a recomputed "
-        "candidate; success is returned only behind 'candidates == matches'; the hashing core sees caller-supplied hashes only behind a length check and behind a refusal of the reserved zero hash (which the core "
+        "candidate; success is returned only behind 'candidates == matches' and, in a verifier that compares the hash and target counts, only after that comparison; the hashing core sees caller-supplied hashes only behind a length check and behind a refusal of the reserved zero hash (which the core "
         "would move up unhashed); a failing return of the core is guarded by a comparison of the claimed position with a bound computed from the leaf count; siblinghood is never "
         "concluded from rightSib(a)==b alone; the verifiers use the positions the candidates were computed at; and on every verification path positions are used in the coordinate "
         "system (tree layout vs the map forest's TotalRows layout) the accompanying height denotes; neither input of the core's parent-hash step can be the default value of its variable. These are necessary conditions of soundness, decided for all inputs (five of "
@@ -192,7 +192,7 @@ m = {
               "kind_free_text": "repository-specific static analyzer: go/packages + go/types + go/ssa + VTA/CHA call graph; path/dominance rules, lockset, slice-ownership abstract interpretation, flow- and context-sensitive order-class and coordinate-layout abstract interpretation, io discipline"}],
  "checks": checks,
  "not_applicable": na,
- "notes": "All checks are static (no utreexo code is executed). Eighteen genuine defects reported by the rules on the pinned tree were repaired in /repo by 'fix:' commits and two are recorded as known findings (F1: C10, F2: C08) because no small repair passes the unedited suite / exists; see known_findings.json and DESIGN.md section 6. The independently seeded defects are kept under seeded/ (DESIGN.md section 10); those a rule reports are re-applied as self-test variants by every thorough run.",
+ "notes": "All checks are static (no utreexo code is executed). Nineteen genuine defects reported by the rules on the pinned tree were repaired in /repo by 'fix:' commits and two are recorded as known findings (F1: C10, F2: C08) because no small repair passes the unedited suite / exists; see known_findings.json and DESIGN.md section 6. The independently seeded defects are kept under seeded/ (DESIGN.md section 10); those a rule reports are re-applied as self-test variants by every thorough run.",
 }
 json.dump(m, open(os.path.join(V, "MANIFEST.json"), "w"), indent=1)
 print("checks:", [c["property_id"] for c in checks], "not_applicable:", [n["property_id"] for n in na])
